@@ -100,6 +100,7 @@ class AbsInt:
                 self.ranks[p] = len(split_top(sh))
         self.int_params = ip
         self.imprecise_loops = set()
+        self.free_atoms = set()      # atoms of loop variables whose iteration domain the engine could not read (any value is possible)
         self.axioms = []      # definitional constraints of derived atoms (floor-div / mod), universally valid
         self.at = {}          # id(stmt) -> [State]  (state *before* the statement)
         self.after = {}       # id(stmt) -> [State]  (states after the statement, normal completion)
@@ -897,6 +898,10 @@ class AbsInt:
         # unwrap tqdm(...)/trange
         if isinstance(it, ast.Call) and dotted(it.func) in ("tqdm", "tqdm.tqdm") and it.args:
             it = it.args[0]
+        # reversed(range(..)) / list(range(..)) visit the same values as range(..)
+        while isinstance(it, ast.Call) and dotted(it.func) in ("reversed", "list", "iter") and len(it.args) == 1 and isinstance(it.args[0], ast.Call) \
+                and dotted(it.args[0].func) in ("range", "trange", "numba.prange", "prange", "reversed", "list"):
+            it = it.args[0]
         enum_idx = None
         if isinstance(it, ast.Call) and dotted(it.func) == "enumerate" and it.args and \
                 isinstance(tgt, ast.Tuple) and len(tgt.elts) == 2:
@@ -949,6 +954,17 @@ class AbsInt:
                             st.add(ge(a, lo))
                         if hi is not None:
                             st.add(lt(a, hi))
+            return
+        # an index-generating construct the engine cannot read (sorted(range..), zip of ranges, itertools.product, arange, argsort ...):
+        # the loop variables then look unconstrained although they are not - unlike rows of data, which really are arbitrary
+        if isinstance(it, ast.Call) and (dotted(it.func) or "").split(".")[-1] in ("reversed", "sorted", "zip", "product", "arange", "argsort",
+                                                                                   "permutations", "combinations", "nonzero", "where", "flatnonzero"):
+            self._mark_free_targets(st, s)
+
+    def _mark_free_targets(self, st, s):
+        for x in ast.walk(s.target):
+            if isinstance(x, ast.Name) and x.id in st.sver:
+                self.free_atoms.add(st.sver[x.id])
 
     def _bound_list(self, st, e, combiner, loop):
         """loop bound as a conjunction: range(min(a, b)) gives v < a and v < b (dually max for lower bounds);
